@@ -277,10 +277,141 @@ def _heap_ty(f, t):
     return out
 
 
+CHAIN_OK = ("::as_ref", "::as_deref", "Deref>::deref", "::iter", "::into_iter", "::copied", "::cloned", "::filter", "::as_slice",
+            "::rev", "::clone", "::borrow")
+
+
+def _value_defs(f, operand, depth=0, seen=None):
+    """Definitions a value comes from, looking through plain copies and through `.i` of tuples that are built in place."""
+    seen = seen if seen is not None else set()
+    out = []
+    pl = op_place(operand) if isinstance(operand, dict) else None
+    if pl is None:
+        return out
+    l = pl["l"]
+    idx = [e["i"] for e in pl["p"] if isinstance(e, dict) and "i" in e]
+    key = (l, tuple(idx))
+    if key in seen or depth > 30:
+        return out
+    seen.add(key)
+    for d in f.defs().get(l, []):
+        if d["k"] == "assign" and not d.get("partial"):
+            rv = d["rv"]
+            if rv["k"] in ("use", "cast") and op_place(rv["a"]) is not None and not idx:
+                out += _value_defs(f, rv["a"], depth + 1, seen)
+                continue
+            if rv["k"] == "agg" and rv.get("ak") == "tuple" and idx and idx[0] < len(rv["ops"]):
+                out += _value_defs(f, rv["ops"][idx[0]], depth + 1, seen)
+                continue
+            if rv["k"] in ("use", "cast") and op_place(rv["a"]) is not None and idx:
+                src = op_place(rv["a"])
+                out += _value_defs(f, {"cp": {"l": src["l"], "p": list(src["p"]) + [e for e in pl["p"] if isinstance(e, dict) and "i" in e]}}, depth + 1, seen)
+                continue
+        out.append(d)
+    return out
+
+
+def r09d(ctx, P):
+    rid = "R09.d"
+    import re
+    ctx.rule(rid, "AGREE (the length floor of the upper bounds vs the length used for scoring): TermState::doc_len(d) is lens[d] when "
+                  "positive and avgdl.max(1) otherwise; upper_bound / block_upper_bound use `min_doc_len` in its place, which is sound "
+                  "only if it is a lower bound of every doc_len. In TermState::new every value stored into `min_doc_len` is either "
+                  "(a) a minimum-reduction over the WHOLE doc_lengths column — receiver chain made of deref/iter/copied/filter only, no "
+                  "slicing, indexing, skip/take — whose filters test nothing but positivity, selected by `is_finite()` alone, or (b) "
+                  "the same fallback doc_len uses, selected only by `!is_finite()` of that reduction or by the absence of the column")
+    f = P.fn("searchlite_core::query::wand::TermState::new")
+    adt = P.adts.get("searchlite_core::query::wand::TermState")
+    if not (ctx.anchor(rid, f, "TermState::new") and ctx.anchor(rid, adt, "TermState")):
+        return
+    ctx.saw(f)
+    names = [x[0] for x in adt["variants"][0]["fields"]]
+    if not ctx.anchor(rid, "min_doc_len" in names, "TermState.min_doc_len"):
+        return
+    ix = names.index("min_doc_len")
+    sl = Slice(f, through_all_calls=True)
+    sl0 = Slice(f)
+    aggs = [(b, i, st) for b, i, st in f.stmts() if st["k"] == "assign" and st["rv"]["k"] == "agg" and
+            (st["rv"].get("adt") or "") == "searchlite_core::query::wand::TermState"]
+    ctx.floor(rid, len(aggs), 1, "TermState construction")
+    for b, i, st in aggs:
+        defs = _value_defs(f, st["rv"]["ops"][ix])
+        reductions = []
+        problems = []
+        RED = r"::(fold|reduce|min|min_by|min_by_key)$"
+        red_dsts = set()
+        for d in defs:
+            if d["k"] != "call":
+                continue
+            if re.search(RED, callee_of(d["t"])) and d["t"]["args"] and "doc_lengths" in sl.fields(d["t"]["args"][0]):
+                reductions.append(d)
+                red_dsts.add(d["t"]["dst"]["l"])
+            elif callee_of(d["t"]).endswith(("Option::<T>::unwrap_or", "Option::<T>::unwrap_or_else", "Option::<T>::unwrap_or_default")):
+                # Option-returning reduction (min_by, reduce) unwrapped with a default
+                for x in sl.sources(d["t"]["args"][0]):
+                    if x[0] == "call" and re.search(RED, callee_of(x[2])) and x[2]["args"] and "doc_lengths" in sl.fields(x[2]["args"][0]):
+                        reductions.append({"k": "call", "t": x[2], "b": x[1]})
+                        red_dsts.add(d["t"]["dst"]["l"])
+                        red_dsts.add(x[2]["dst"]["l"])
+        for d in reductions:
+            t = d["t"]
+            recv = t["args"][0]
+            for x in sl.sources(recv):
+                if x[0] == "call":
+                    c = callee_of(x[2])
+                    if c.endswith(CHAIN_OK) or c.endswith(("Option::<T>::as_ref", "unwrap_or", "unwrap_or_default")) and False:
+                        continue
+                    if c.endswith(CHAIN_OK):
+                        continue
+                    problems.append("the reduction at %s does not run over the whole column: its source passes through %s" % (
+                        Site(f, d["b"]).loc(), c.rsplit("::", 2)[-2] + "::" + c.rsplit("::", 1)[1]))
+                if x[0] == "agg" and "ops::range::" in (x[3].get("adt") or ""):
+                    problems.append("the reduction at %s runs over a sub-range of the column" % Site(f, d["b"]).loc())
+                filter_closures = set()
+                if x[0] == "call" and callee_of(x[2]).endswith("::filter"):
+                    for a_ in x[2]["args"][1:]:
+                        for y in sl.sources(a_):
+                            if y[0] == "agg" and y[3].get("closure"):
+                                filter_closures.add(y[3]["closure"])
+                for cp in sorted(filter_closures):
+                    g = P.fn(cp)
+                    if g is None:
+                        continue
+                    ctx.saw(g)
+                    cmps = [s_ for _b, _i, s_ in g.stmts() if s_["k"] == "assign" and s_["rv"]["k"] == "binop" and s_["rv"]["op"] in ("Gt", "Ge", "Lt", "Le", "Ne", "Eq")]
+                    zero = [s_ for s_ in cmps if s_["rv"]["op"] in ("Gt", "Ne") and
+                            any((op_const(o) or {}).get("float") in (0, 0.0) or str((op_const(o) or {}).get("txt", "")).startswith(("0f32", "0_f32", "0.0", "const 0f32"))
+                                for o in (s_["rv"]["a"], s_["rv"]["b"]))]
+                    other_calls = [callee_of(t_) for _b, t_ in g.calls() if not callee_of(t_).endswith(("Deref>::deref",))]
+                    if len(cmps) != 1 or len(zero) != 1 or other_calls:
+                        problems.append("the filter closure at %s:%s tests more than positivity" % (g.file, g.line))
+        if not reductions:
+            problems.append("no minimum-reduction over the doc_lengths column feeds min_doc_len")
+        # selection: which tests control each definition?
+        for d in defs:
+            for (a, succ) in f.control_deps_transitive(d["b"]):
+                t = f.blocks[a]["term"]
+                if t["k"] != "switch":
+                    continue
+                srcs = sl0.sources(t["on"])
+                is_fin = any(x[0] == "call" and callee_of(x[2]).endswith("::is_finite") and op_local(x[2]["args"][0]) is not None and
+                             (set(sl0.locals(x[2]["args"][0])) & red_dsts) for x in srcs) and not any(x[0] == "binop" for x in srcs)
+                is_opt = any(x[0] == "discr" for x in srcs) and "doc_lengths" in sl.fields(t["on"]) and not any(x[0] == "binop" for x in srcs)
+                if not (is_fin or is_opt):
+                    problems.append("the value defined at %s is selected by the test at %s, which is neither `is_finite()` of the reduction "
+                                    "nor the presence of the column" % (Site(f, d["b"], d.get("i", TERM)).loc(), Site(f, a).loc()))
+        ok = not problems
+        ctx.ob(rid, "%s:TermState::new:length-floor" % rid, ok,
+               "min_doc_len is the minimum positive length of the whole column (fallback only when there is none): a lower bound of "
+               "every doc_len()" if ok else "min_doc_len may exceed a scored document's doc_len(): %s" % "; ".join(sorted(set(problems))[:3]),
+               Site(f, b, i).loc())
+
+
 def run(ctx, progs):
     P = progs.get("default")
     r09a(ctx, P)
     r09b(ctx, P)
     r09c(ctx, P)
+    r09d(ctx, P)
     ctx.assumptions += ["leaf scores are non-negative (BM25 with validated non-negative boosts: validate_boost rejects negative / non-finite)",
                         "TermState::upper_bound / block_upper_bound really bound the term's contribution — algorithmic, not decided here"]
